@@ -29,7 +29,14 @@ Recurring lessons, now built into every driver: descriptors that share a type na
 no fields), process-global or object-level caches keyed too coarsely, operations that fail in the middle of a history
 while the application carries on, falsy / boundary / non-boolean values, state observed under one configuration and used
 under another, definitions that are another cut of the same characters, forms outside a grammar nested under its
-connectives.
+connectives; from rounds four to six: the process's own circumstances (locale, time zone, `python -O`, a closed standard
+output, a FIFO instead of a file), two objects of one kind alive at the same time (writers, readers, selectors -- and one
+selector entered twice), the death of the writer and a commit that cannot be made, tables of fixed capacity met by more
+types than they hold, values that are already instances of a field type (and so skip conversion), names that collide
+with the library's own attributes, methods or parameters (`record`, `name`, `keys`, `self`, `rowid`).
+Six seeds are filed under the property whose check catches them rather than the one they were written for (C07e_3 -> C09,
+C03f_1 -> C01, C03f_2 -> C04, and earlier ones noted in the table); two became meaningless through later repository
+fixes (marked NOW OBSOLETE) and a few were re-based onto such fixes.
 
 | seed | property | change | detected | what was run / what had to be added |
 |---|---|---|---|---|
